@@ -14,7 +14,8 @@ DESIGN_REF = "DESIGN.md §4 C02"
 RULE = ("bodies from a grammar of hostile lines (leading/lone dots, NUL, 8-bit, bare CR at start/middle/end, empty lines, random bytes, "
         "repeated runs up to 200 bytes), long-line cases of 4095..300000 bytes, raw wire encodings with bare-LF line ends and LF-only "
         "terminators; multi: one transaction with 2-4 recipients (distinct mailboxes, the same mailbox twice), EVERY stored copy read back "
-        "through all four interfaces; distinct = distinct input line; non-trivial = the message was stored and has a body beyond the trace headers")
+        "through all four interfaces; asmsrc: the assembled server (FullAssembly + Services.Start in a child process), delivery over the real SMTP port, "
+        "reads over the real HTTP listener with Go's default client (gzip offered) and the real POP3 port, stored sizes around multiples of 32 KiB; distinct = distinct input line; non-trivial = the message was stored and has a body beyond the trace headers")
 TRUSTED = ["net/textproto dotReader transcribed by hand into Model/Dot.v", "httptest around the real router for REST and web-UI reads"]
 ASSUMPTIONS = ["the header block of the payload decides acceptance (451 otherwise): the driver reports enmime's verdict as an oracle"]
 NOT_PROVED = []
@@ -38,7 +39,7 @@ def shrink_candidates(inp):
             for i in range(len(ls)):
                 yield " ".join([parts[0], parts[1], parts[2], ",".join(ls[:i] + ls[i + 1:]) or "-"])
         return
-    if parts[0] == "lines" and parts[2] != "-":
+    if parts[0] in ("lines", "asmsrc") and parts[2] != "-":
         ls = parts[2].split(",")
         for i in range(len(ls)):
             q = ls[:i] + ls[i + 1:]
